@@ -35,6 +35,7 @@ def run(ctx):
     ctx.do(DG.rule_hd1)
     ctx.do(CA.rule_c2, "ProjectiveObject")
     ctx.do(SH.rule_sh5, only={"Point.unit_tangent_towards", "Point.distance", "Point.origin_to", "TangentVector.origin_to", "None.sl2_iso"})
+    ctx.do(SH.rule_hom1, parts=("hyp", "proj"), min_proved=30)
     ctx.do(u1, ENTRIES + [
         (HYP, "Point.unit_tangent_towards"), (HYP, "Point.distance"),
         (HYP, "Point.origin_to"), (HYP, "TangentVector.origin_to"),
